@@ -43,6 +43,7 @@ type Run struct {
 	nodes  []*Node
 	inconc string // inconclusive reason (harness trouble), never a violation
 
+	driverID   uint64
 	simStart   time.Time
 	simElapsed time.Duration
 	cleanups   []func()
